@@ -12,6 +12,7 @@ structure DState where
   inst : List (String × Server) := []
   cur  : String := ""
   proto : Proto.PState := {}
+  block : Block.BState := []
   feeds : List (String × List FeedOp) := []      -- per watched instance: records not yet drained (oldest first)
 
 def DState.sv (d : DState) : Server := ((d.inst.find? (·.1 == d.cur)).map (·.2)).getD {}
@@ -37,6 +38,7 @@ def step (d : DState) (line : String) : DState × String :=
   | "ck" :: _ | "dk" :: _ | "ev" :: _ => (d, Driver.codecOp toks)
   | "frag" :: rest => (d, Driver.fragOp rest)
   | "pev" :: rest => let (p, out) := Driver.protoOp d.proto rest; ({ d with proto := p }, out)
+  | "bev" :: rest => let (b, out) := Driver.blockOp d.block rest; ({ d with block := b }, out)
   | ["pend"] => ({ d with proto := {} }, Driver.protoEnd d.proto)
   | "open" :: id :: backend :: _ =>
     ({ d with cur := id }.putSv { store := { pebble := backend == "pebble" } }, "ok")
